@@ -230,6 +230,13 @@ var handLinkDocs = []string{
 	`{ __schema { types { name } } __type(name: "A") { name } __typename }`, `{ one(x: {a: 1}) e(v: RED) }`,
 	`query A($v: Int) { ...F } query B($v: Int) { ...F } fragment F on Query { f(i: $v, nn: 1) }`,
 	`query($v: In) { f(o: $v, nn: 1) }`, `{ a { o { y } } b { li } }`,
+	// variables where no type guides the walk: inside lists and objects given to a custom scalar
+	`query($v: Int, $w: String) { f(i: $v, nn: 1) e1: any(x: [$v]) e2: any(x: {ids: [$v, [$w]]}) e3: any(x: [[$v], {k: $w}]) e4: any(x: $w) }`,
+	`query($v: Int) { f(i: $v, nn: 1) ...F } fragment F on Query { any(x: [1, [$v]]) }`,
+	// the same fragment spread twice in one operation, with directives on the later spread
+	`query($h: Boolean!) { a { ...G } b: a { ...G @skip(if: $h) @rep } s @include(if: $h) } fragment G on A { x }`,
+	// several operations share a fragment that uses a variable only some of them... all declare it
+	`query First($id: Int) { ...Sel } query Second($id: Int) { ...Sel s } fragment Sel on Query { f(i: $id, nn: 1) }`,
 }
 
 func checkC09(c *core.Ctx) {
